@@ -80,6 +80,8 @@ class CallMixin(ExecBase):
     def call_value(s, p, f, args, kwargs, node):
         if f.get("model") is not None:
             return f.get("model")(s, p, args, kwargs, node)
+        if f.get("builtin") and f.get("cls") and f.get("cls") in s.unit.ctors:
+            return s.unit.ctors[f.get("cls")](s, p, args, kwargs, node)
         if f.get("builtin"):
             m = getattr(s, "b_" + f.get("builtin"), None)
             if m is None:
